@@ -90,8 +90,13 @@ fn main() {
             vcheck::sim::install_panic_hook();
             let input = vcheck::runner::read_json(std::path::Path::new(&args[1])).expect("input");
             let input = if input.get("input").is_some() { input.get("input").cloned().unwrap() } else { input };
-            let case: vcheck::case::Case = serde_json::from_value(input.get("case").cloned().expect("case")).expect("case");
-            let cfg = vcheck::runner::cfg_from_json(input.get("cfg").unwrap_or(&serde_json::Value::Null));
+            let (case, cfg): (vcheck::case::Case, vcheck::sim::RunCfg) = if input.get("engine").and_then(|e| e.as_str()) == Some("c16") {
+                // the run in which the victim request is abandoned
+                let c: vcheck::c16::C16Case = serde_json::from_value(input.get("case").cloned().expect("case")).expect("c16 case");
+                (vcheck::c16::build(&c, vcheck::c16::Mode::Abandon).0, vcheck::sim::RunCfg { horizon: false, drain: false, qp_each_op: false })
+            } else {
+                (serde_json::from_value(input.get("case").cloned().expect("case")).expect("case"), vcheck::runner::cfg_from_json(input.get("cfg").unwrap_or(&serde_json::Value::Null)))
+            };
             let tr = vcheck::sim::run_case(&case, &cfg);
             let rep = vcheck::model::analyze(&tr);
             println!("{}", serde_json::to_string_pretty(&vcheck::runner::trace_json(&tr)).unwrap());
